@@ -85,6 +85,14 @@ def differential():
                 continue
             if got != _plain(exp):
                 bad.append((s, 're.findall', pat, got, exp))
+        for pat in (r'([\[\]\(\)/\\|<>])', r'\s*([\[\]\(\)/\\|<>])\s*', r'X', r'\s+', r'[,=]'):
+            exp = re.split(pat, s)
+            try:
+                got = _plain(symre.split(pat, ss))
+            except core.Unsupported:
+                continue
+            if got != _plain(exp):
+                bad.append((s, 're.split', pat, got, exp))
     E.force_sym = False
     E.active = False
     return bad
